@@ -29,7 +29,7 @@ def model_checks(ctx):
         r = vlib.run_tlc(ctx, FAM, mod, mod + ".cfg")
         ctx.add_tlc(r)
     for mod, defects in (("XStreamConn", ("NoDelete", "ResetKeepsEntry", "ArrivalOrder")),
-                         ("XHop", ("HijackIdFromFrame", "NoDelete", "ArrivalOrder", "RecycleWhileReferenced", "BodyAliasesReadBuffer", "LocalReplyKeepsOldBody"))):
+                         ("XHop", ("HijackIdFromFrame", "NoDelete", "ArrivalOrder", "RecycleWhileReferenced", "BodyAliasesReadBuffer", "LocalReplyKeepsOldBody", "DroppedResponseKeepsDecodeContext"))):
         for d in defects:
             cfg = "%s_defect_%s.cfg" % (mod, d)
             if vlib.run_tlc(ctx, FAM, mod, cfg, expect_ok=False)["ok"]:
@@ -50,6 +50,8 @@ def features(case):
     for s in case["steps"]:
         if s["op"] == "send" and s.get("mode", 0) != 0:
             f.add("collision")
+        if s["op"] == "send" and s.get("bare"):
+            f.add("bare")
         if s["op"] == "tmo":
             f.add("tmo"); late.add(s["r"])
         if s["op"] == "ans" and s["r"] in late:
@@ -125,8 +127,11 @@ def run(ctx):
         # classes that are always represented (VERIF_SEED sample of each), plus a sample of the rest:
         #  A colliding id meets a proxy-made error reply or a late/duplicate answer;  B an answer races the end of its request;
         #  C decode A / read B / encode A on the re-encoding route;  D an upstream error answer is retried (retry_on route)
+        #  E a body-less answer in a schedule that also has a dropped (late, duplicate, unknown-id) response
         def cls(c):
             f = features(c)
+            if "bare" in f and f & {"dup", "ghost", "late", "tmo"}:
+                return "E"
             if "uerr" in f:
                 return "D"
             if "inter" in f and c.get("reenc"):
@@ -140,7 +145,7 @@ def run(ctx):
         for c in hall:
             by.setdefault(cls(c), []).append(c)
         hcases = []
-        for k, n in (("A", 400), ("B", 600), ("C", 450), ("D", 450), ("rest", 600)):
+        for k, n in (("A", 400), ("B", 600), ("C", 450), ("D", 450), ("E", 500), ("rest", 600)):
             hcases += rng.sample(by.get(k, []), min(n, len(by.get(k, []))))
     else:
         hcases = hall + hall6
@@ -209,9 +214,9 @@ def run(ctx):
     ctx.cov["exhaustive"] = not q
     ctx.cov["rule"] = ("table: every history of <=%d ops (new/resp for any waiter's latest id/ghost id/reset/connreset) over 3 waiters, id counter "
                        "seeded at 2^32-2, replayed into the real bolt client stream connection; hop: every schedule of 5 steps (thorough: plus a VERIF_SEED sample of 3000 of the 6-step schedules) over 3 requests "
-                       "on <=2 downstream connections (send with fresh or colliding id and long or short timeout / ans / dup / ghost / tmo / race, racegone = answer held in its handler while the timeout / the client's disconnect ends the request / inter = answer A decoded, answer B read and delivered on the same upstream connection, then A encoded / uerr = the upstream answers the current attempt with an error status and a body, which a retry_on route retries / close), "
+                       "on <=2 downstream connections (send with fresh or colliding id, long or short timeout, and for at most one request the instruction that the upstream answers it without a body / ans / dup / ghost / tmo / race, racegone = answer held in its handler while the timeout / the client's disconnect ends the request / inter = answer A decoded, answer B read and delivered on the same upstream connection, then A encoded / uerr = the upstream answers the current attempt with an error status and a body, which a retry_on route retries / close), "
                        "each on the plain route, on the route that adds headers both ways (proxy re-encodes from fields) and on the retry_on route "
-                       "from XHop.tla (%d), quick = VERIF_SEED samples of the collision+timeout+late/dup, answer-races-end and decode/read/encode classes and of the rest; storm: VERIF_SEED-randomised "
+                       "from XHop.tla (%d), quick = VERIF_SEED samples of the collision+timeout+late/dup, answer-races-end, decode/read/encode, retried-error-answer and body-less-answer-next-to-dropped-response classes and of the rest; storm: VERIF_SEED-randomised "
                        "pipelined clients on shared connections; h1: sequential HTTP/1.1 clients over pooled ping-pong upstream connections, 30%% of the "
                        "requests time out in the proxy before the upstream answers" % (5 if q else 6, len(hall)))
     if any(r.get("warm_failed") for r in summ) and not ctx.violations and not ctx.known_hits:
